@@ -400,6 +400,14 @@ def conventional(rng, name, feat=None):
                     tags.add("server-streaming")
             if picks:
                 tags.add("stream-mix:" + "+".join(picks))
+        if rng.random() < 0.5:
+            # a small service whose only RPC has one streaming kind (nothing else in the service pulls in the
+            # typing/iterator imports that kind needs)
+            kind = rng.choice(["client", "server", "bidi"])
+            solo = f.service({"client": "Uploader", "server": "Feeder", "bidi": "Duplex"}[kind], host=host)
+            solo.rpc({"client": "Upload", "server": "Feed", "bidi": "Talk"}[kind], P + ".ChatMessage", P + ".ChatMessage",
+                     cs=kind in ("client", "bidi"), ss=kind in ("server", "bidi"))
+            tags.add("solo-stream-service:" + kind)
     if feat.get("exotic") or feat.get("collide"):
         # locally defined types whose simple names equal well-known ones: they are ordinary messages of this package
         lf = tf
